@@ -549,3 +549,118 @@ def in_cycle(cfg, node):
         if node in cfg.reachable_from([m]):
             return True
     return False
+
+
+# ---------------------------------------------------------------------------
+# Path-sensitive search: remembers the outcome of *pure* conditions (tests on
+# local names only: `flag`, `x is None`, `x is not None`, `not flag`) along a
+# path and never takes the contradicting edge of a later test of the same
+# atom while the names involved have not been re-assigned.
+
+def _atom_of(expr):
+    """(atom text, polarity) for a pure condition, else None."""
+    pol = True
+    while isinstance(expr, ast.UnaryOp) and isinstance(expr.op, ast.Not):
+        expr = expr.operand
+        pol = not pol
+    if isinstance(expr, ast.Name):
+        return expr.id, pol, {expr.id}
+    if isinstance(expr, ast.Compare) and len(expr.ops) == 1 \
+            and isinstance(expr.left, ast.Name) \
+            and isinstance(expr.comparators[0], ast.Constant) \
+            and expr.comparators[0].value is None:
+        if isinstance(expr.ops[0], ast.Is):
+            return expr.left.id + ' is None', pol, {expr.left.id}
+        if isinstance(expr.ops[0], ast.IsNot):
+            return expr.left.id + ' is None', not pol, {expr.left.id}
+    return None
+
+
+def _assigned_names(node):
+    out = set()
+    n = node.ast
+    if node.kind == 'stmt' and isinstance(n, ast.Assign):
+        for t in n.targets:
+            for x in ast.walk(t):
+                if isinstance(x, ast.Name):
+                    out.add(x.id)
+    elif node.kind == 'stmt' and isinstance(n, (ast.AugAssign, ast.AnnAssign)):
+        for x in ast.walk(n.target):
+            if isinstance(x, ast.Name):
+                out.add(x.id)
+    elif node.kind == 'for':
+        for x in ast.walk(n.target):
+            if isinstance(x, ast.Name):
+                out.add(x.id)
+    return out
+
+
+def find_path_sensitive(cfg, starts, goal_pred, avoid=(), assume=None,
+                        decide=None, on_node=None, limit=20000):
+    """BFS over (node, facts). facts: frozenset of (atom, truth, names).
+    assume: {atom text: truth} initial facts (names taken from the atom).
+    decide(node, facts) -> True/False/None may fold a cond node.
+    on_node(node, facts) -> facts' may add/remove marker facts.
+    Returns a path (list of nodes) or None."""
+    from collections import deque
+    avoid = set(id(n) for n in avoid)
+    init = frozenset((a, t, frozenset(a.replace(' is None', '').split()))
+                     for a, t in (assume or {}).items())
+    prev = {}
+    dq = deque()
+    for s in starts:
+        if id(s) in avoid:
+            continue
+        st = (s.id, init)
+        prev[st] = None
+        dq.append((s, init))
+    steps = 0
+    while dq:
+        n, facts = dq.popleft()
+        steps += 1
+        if steps > limit:
+            break
+        if goal_pred(n):
+            path, st = [], (n.id, facts)
+            while st is not None:
+                path.append(cfg.nodes[st[0]])
+                st = prev[st]
+            return list(reversed(path))
+        if on_node is not None:
+            nf = on_node(n, facts)
+        else:
+            nf = facts
+        killed = _assigned_names(n)
+        if killed:
+            nf = frozenset(f for f in nf if not (f[2] & killed))
+        allowed = None
+        new_fact = None
+        if n.kind == 'cond':
+            at = _atom_of(n.ast)
+            known = None
+            if at is not None:
+                for a, t, _names in nf:
+                    if a == at[0]:
+                        known = (t == at[1])
+            if known is None and decide is not None:
+                known = decide(n, nf)
+            if known is not None:
+                allowed = known
+            elif at is not None:
+                new_fact = at
+        for m, lab in n.succs:
+            if id(m) in avoid:
+                continue
+            if allowed is not None and lab in (True, False) and lab is not allowed:
+                continue
+            mf = nf
+            if new_fact is not None and lab in (True, False):
+                truth = (lab is True) == new_fact[1]
+                mf = frozenset(set(nf) | {(new_fact[0], truth,
+                                           frozenset(new_fact[2]))})
+            st = (m.id, mf)
+            if st in prev:
+                continue
+            prev[st] = (n.id, facts)
+            dq.append((m, mf))
+    return None
